@@ -36,6 +36,20 @@ class C05(EvalCheck):
         cases = []
         for ti in range(n):
             t = gen_table(rng, max_coefs=3000, coef_style=rng.choice(["rand", "special"]))
+            if ti % 8 == 5:
+                # beyond the usual range: 6..9 dimensions with ONE high order (6..10) and the others 0/1 at minimal knot counts —
+                # the products ndim x (order+1) at which fixed-size local buffers would be sized (memory safety holds for every
+                # well-formed table)
+                nd = rng.choice([6, 7, 8, 8, 8, 9])
+                orders = [rng.choice([0, 0, 1]) for _ in range(nd)]
+                orders[rng.below(nd)] = rng.choice([6, 7, 8, 8, 9, 10])
+                if rng.chance(0.5):
+                    orders[-1] = max(orders[-1], 1)
+                knots = [gen_knots(rng, o, rng.choice([0, 0, 1]), rng.choice(["uniform", "irregular", "integer"]), 1.0, rng.unit() * 4 - 2) for o in orders]
+                nco = 1
+                for k, o in zip(knots, orders):
+                    nco *= len(k) - o - 1
+                t = Table(orders, knots, [gen_coef(rng, "rand") for _ in range(nco)], rng.choice([math.nan, 1e300, 0.0]))
             qs = []
             for qi in range(10):
                 if qi % 3 == 0:
